@@ -213,6 +213,29 @@ def run(p, led, tier):
                 led.ok("C02-R1", key, where(walker, walker.node), f"operator.{fn}(operands in order)")
             else:
                 led.ok("C02-R1", key, where(walker, walker.node), "unsupported → raises (failure), allowed", nontrivial=False)
+    # nesting: the grouping written in the source is the grouping computed (no re-association of a run of one operator)
+    if "BinOp" in acc:
+        supported = [(o, f) for o, f in BINOPS.items() if any(r["kind"] != "raise" for r in W.paths(ast.BinOp(C(a), getattr(ast, o)(), C(b))))]
+        for opname, fn in supported:
+            for shape, node, want in (
+                    ("a op (b op c)", ast.BinOp(C(a), getattr(ast, opname)(), ast.BinOp(C(b), getattr(ast, opname)(), C(c))), f"operator.{fn}(a, operator.{fn}(b, c))"),
+                    ("(a op b) op c", ast.BinOp(ast.BinOp(C(a), getattr(ast, opname)(), C(b)), getattr(ast, opname)(), C(c)), f"operator.{fn}(operator.{fn}(a, b), c)")):
+                key = f"{walker.qual} ▸ BinOp {opname} ▸ grouping {shape}"
+                bad, okn = [], 0
+                for r in W.paths(node):
+                    if r["kind"] == "raise":
+                        continue
+                    okn += 1
+                    v = r["value"]
+                    got = v.sym.replace("?", "") if isinstance(v, Unknown) else repr(v)
+                    if got != want:
+                        bad.append(f"returns {got}, Python computes {want}")
+                if bad:
+                    led.fail("C02-R1", key, where(walker, walker.node), bad[0], witness="0.1 + (0.2 + 0.3) evaluates to 0.6000000000000001 (Python: 0.6); 1e16 + (1 + 1) loses the 2")
+                elif okn:
+                    led.ok("C02-R1", key, where(walker, walker.node), f"{want}: the source grouping is kept")
+                else:
+                    led.fail("C02-R1", key, where(walker, walker.node), "a nested operand makes the supported operator raise")
     if "UnaryOp" in acc:
         key = f"{walker.qual} ▸ UnaryOp Not"
         rs = W.paths(ast.UnaryOp(ast.Not(), C(a)))
